@@ -9,6 +9,13 @@ NOTE_COMMON = ("Trusted: Coq 8.16.1 kernel (coqc full .vo build; vm_compute for 
                "model evaluated by coqc on the same cases); third-party crates (blstrs_plus, sha3, merlin, bulletproofs, serde formats) are idealised interfaces. ")
 
 CHECKS = {
+    "C20": dict(
+        text="PARTIAL. Theorems, for every input: the claim text parser, the claim byte parser and both scalar unpackers never reach a checked primitive (range slicing, array indexing, the scalar library's panicking hex decoder) with an argument on which it unwinds; the structural skeleton of Presentation::verify (dispatch, reported-claim comparison, hidden-message index walk of both suites, every verifier's structural tests, response-count and index checks of both proofs of signature knowledge) never unwinds for any structure (missing entries, dangling / mistyped references, unsorted or out-of-range indices, response vectors and keys of any length) and any outcome of every cryptographic test, and a structure it rejects when every test passes is rejected whatever the tests say. Termination is structural. "
+             "Presentation::create, blind-request handling, to_unblinded, the serde decoders and the hand-written byte codecs have no Coq model of their control flow in this property: they are covered by the mutation harness only. "
+             "Correspondence / search: all strings of length 0..3 (thorough 0..4) over an 18-symbol alphabet plus prefixed and random strings, byte strings and scalars for the parsers (full result compared with the model); one structural mutation at every key, index, reference, list and flag (sampled for retyping and leaf bytes) of the CBOR tree of presentations, schemas, credential maps, issuer public data, blind requests, known/blind claim maps and blind bundles, both suites, decoded and handed to verify (compared with the skeleton), create, blind_sign_credential, to_unblinded, BlindCredentialRequest::new and the decryption methods; byte-level mutations of CBOR/BARE/JSON encodings; arbitrary and mutated bytes for every hand-written from_bytes. Any panic is reported with its source location.",
+        design="§7 C20, §14",
+        note="A panic inside a third-party crate is visible only to the harness. Known finding: JSON decoding panics inside blstrs_plus' hex decoder. Not exercised: BBS CompressedPublicKey::decompress with an attacker-chosen max_messages (allocation proportional to the count).",
+        technique="Coq theorems (induction over the index walk with the cursor invariant j <= i, pigeonhole bound on the known-index set, case analysis of every branch) about executable models with panicking primitives + mutation-based differential correspondence / panic search against credx"),
     "C18": dict(
         text="Theorems over all of i64 / all byte strings / all claims: zero-centring value, strict monotonicity, injectivity, canonicity and inverse of the integer encoding; "
              "pack/unpack round trip, canonicity and injectivity for <=31-byte text/bytes; injectivity of the SHAKE pre-images (hashed, revocation, enumeration) and collision-freeness of to_scalar under a collision-resistant hash; "
